@@ -90,7 +90,7 @@ End T.
 (* the premise of blroot is satisfiable by runs that DO reopen *)
 Example reopens_clean_satisfiable :
   let c := {| c_synced := false; c_embedded := false; c_version := 1; c_maxactive := 10; c_maxentries := 64;
-              c_maxkey := 128; c_maxval := 4096; c_ext0 := false; c_maxconc := 8 |} in
+              c_maxkey := 128; c_maxval := 4096; c_ext0 := false; c_maxconc := 8; c_prealloc := false |} in
   let H := fun b : bytes => firstn 32 (b ++ repeat 0 32) in
   let tx k := {| p_entries := [{| k_key := [k]; k_md := []; k_val := [k] |}]; p_md := None; p_ts := 5;
                  p_precond := None; p_cancel := false |} in
@@ -101,7 +101,7 @@ Proof. vm_compute. repeat split; intros; reflexivity. Qed.
 (* premises are satisfiable: a concrete execution with three committed transactions *)
 Example premises_satisfiable :
   let c := {| c_synced := false; c_embedded := false; c_version := 1; c_maxactive := 10; c_maxentries := 64;
-              c_maxkey := 128; c_maxval := 4096; c_ext0 := false; c_maxconc := 8 |} in
+              c_maxkey := 128; c_maxval := 4096; c_ext0 := false; c_maxconc := 8; c_prealloc := false |} in
   let H := fun b : bytes => firstn 32 (b ++ repeat 0 32) in
   let tx k := {| p_entries := [{| k_key := [k]; k_md := []; k_val := [k] |}]; p_md := None; p_ts := 5;
                  p_precond := None; p_cancel := false |} in
